@@ -323,6 +323,43 @@ pub fn judge(case: &Case, recs: &[MRecord], o: &Result<Obs, String>) -> Vec<(Str
         Ok(o) => o,
         Err(e) => return vec![(format!("open-failed[{}]", tag), e.clone())],
     };
+    if case.stretch {
+        // the length fields of the index disagree with the record headers: the statement ties a shape to the entry's
+        // offset and is silent about that field, so a reader may refuse such an entry.  What is judged: no item is a
+        // shape other than the record at its entry's offset, random access agrees with iteration, and an iteration
+        // that follows a random access is the same as one on a fresh reader.
+        let key = |x: &Result<MRead, String>, i: usize| -> Result<(), String> {
+            match x {
+                Ok(got) => match super::c03::cmp_record(&recs[i.min(recs.len() - 1)], got) {
+                    None if i < recs.len() => Ok(()),
+                    _ => Err("WRONG".into()),
+                },
+                Err(_) => Err("error".into()),
+            }
+        };
+        let fresh: Vec<Result<(), String>> = o.iter.iter().enumerate().map(|(i, x)| key(x, i)).collect();
+        if fresh.iter().any(|x| matches!(x, Err(e) if e == "WRONG")) || o.iter.len() > case.n {
+            out.push((format!("stretched-index:iteration-wrong-record[{}]", tag), format!("iteration yielded {:?} for {} entries", fresh, case.n)));
+        }
+        for (i, x) in o.nth.iter().enumerate().take(case.n) {
+            let a = match x {
+                Some(r) => key(r, i),
+                None => Err("None".into()),
+            };
+            if a != *fresh.get(i).unwrap_or(&Err("None".into())) && (a.is_ok() || fresh.get(i).map(|f| f.is_ok()).unwrap_or(false)) {
+                out.push((format!("stretched-index:random-access-disagrees-with-iteration[{}]", tag), format!("entry {}: read_nth_shape gives {:?}, iteration {:?}", i, a, fresh.get(i))));
+                break;
+            }
+        }
+        for (k, items) in o.after_nth.iter().enumerate() {
+            let again: Vec<Result<(), String>> = items.iter().enumerate().map(|(i, x)| key(x, i)).collect();
+            if again != fresh {
+                out.push((format!("iteration-after-random-access[{}]", tag), format!("read_nth_shape({}) on a fresh reader, then an iteration: {:?}; an iteration on a fresh reader: {:?}", k, again, fresh)));
+                break;
+            }
+        }
+        return out;
+    }
     if o.count != Ok(case.n) {
         out.push((format!("shape-count[{}]", tag), format!("{:?} for {} entries", o.count, case.n)));
     }
@@ -650,7 +687,7 @@ pub fn check(tier: Tier) -> i32 {
             tier,
             level: "model_checking",
             engine: "E2 enumerator over RefCodec-built .shp/.shx pairs (all permutations x all filler combinations), read by the real ShapeReader::with_shx",
-            rule: "types x n records (n = 0 included: a header-only index over fillers) of pairwise different size x every permutation of physical order against index order x every combination of fillers {none, 2, 8, 14 bytes, a complete valid decoy record} before / between / after x filler byte {0x00, 0xff}; header length covers the whole file; every case with a filler behind a record again with index length fields that cover that filler; a random access to every entry of a fresh reader followed by an iteration; every non-trivial case again through sources that return at most 1 resp. 7 bytes per read; a typed iteration as another type going from mismatch to mismatch (one per entry); the iterator also driven through 14 programs of std adaptors (nth, skip, step_by, last, count) from 3 reader states; cases with fillers in {none, 8 bytes, decoy} also as files on disk through read_shapes, read_shapes_as, ShapeReader::from_path; plus records at byte offsets beyond 2^31 and 3*2^30 on a sparse source (physical and permuted index order); non-trivial = some filler or physical order != index order",
+            rule: "types x n records (n = 0 included: a header-only index over fillers) of pairwise different size x every permutation of physical order against index order x every combination of fillers {none, 2, 8, 14 bytes, a complete valid decoy record} before / between / after x filler byte {0x00, 0xff}; header length covers the whole file; every case with a filler behind a record again with index length fields that cover that filler (judged for consistency only: no item is another shape than the record at its entry's offset, random access agrees with iteration, an iteration after a random access equals one on a fresh reader); a random access to every entry of a fresh reader followed by an iteration; every non-trivial case again through sources that return at most 1 resp. 7 bytes per read; a typed iteration as another type going from mismatch to mismatch (one per entry); the iterator also driven through 14 programs of std adaptors (nth, skip, step_by, last, count) from 3 reader states; cases with fillers in {none, 8 bytes, decoy} also as files on disk through read_shapes, read_shapes_as, ShapeReader::from_path; plus records at byte offsets beyond 2^31 and 3*2^30 on a sparse source (physical and permuted index order); non-trivial = some filler or physical order != index order",
             bounds: json!({"types": types.iter().map(|t| t.name()).collect::<Vec<_>>(), "n": ns, "gap_kinds": 5, "cases": cases.len()}),
             exhaustive: true,
             assumptions: vec!["fillers of odd length are impossible (offsets are in 16-bit words)".into()],
